@@ -135,13 +135,21 @@ Slack(o, s, k) ==
   Cardinality({m \in DOMAIN o.pend : o.pend[m].op = "TakeMsg" /\
                  (s = "all" \/ (s = "ip" /\ o.pend[m].ip = k))})
   + (IF s = "dest" THEN Cardinality({m \in DOMAIN o.cm : k \in o.cm[m].opt}) ELSE 0)
+  \* a caller held up at a yield point right after its bucket granted the permit (Park) has it
+  + Cardinality({m \in o.yield : (s = "source" /\ o.pend[m].op = "TakeMsg" /\ o.pend[m].src = k)
+                                  \/ (s = "dest" /\ o.pend[m].op = "TakeDest" /\ o.pend[m].d = k)})
 
 \* (a message that may still keep the destination permit of a refused attempt, cm.opt, counts:
 \* the blocked caller may be waiting for exactly that permit)
 LegitBlock(o, m) ==
   LET p == o.pend[m]
       optd(s, k) == IF s = "dest" THEN Cardinality({x \in DOMAIN o.cm : k \in o.cm[x].opt}) ELSE 0
-      full(s, k) == N(o, s) > 0 /\ o.hold[s][k] + optd(s, k) >= N(o, s)
+      \* a caller held up at a yield point inside its Take (Park) may have the permit already
+      yh(s, k) == Cardinality({x \in o.yield :
+                     (o.pend[x].op = "TakeMsg" /\ (s = "all" \/ (s = "ip" /\ o.pend[x].ip = k)
+                                                  \/ (s = "source" /\ o.pend[x].src = k)))
+                     \/ (o.pend[x].op = "TakeDest" /\ s = "dest" /\ o.pend[x].d = k)})
+      full(s, k) == N(o, s) > 0 /\ o.hold[s][k] + optd(s, k) + yh(s, k) >= N(o, s)
   IN IF p.op = "TakeMsg"
      THEN full("all", AllKey) \/ full("ip", p.ip) \/ full("source", p.src)
      ELSE full("dest", p.d)
